@@ -150,6 +150,7 @@ type watcher struct {
 	mu     sync.Mutex
 	calls  int
 	times  []time.Time // time of every loader invocation
+	ends   []time.Time // time at which every loader invocation returned
 	pubsAt [][]int     // what was published between invocation i-1 and i (nil: nothing); taken by the loader itself
 	stop   bool
 	stopCh chan struct{}
@@ -198,6 +199,11 @@ func startWatchFn(refreshMs int, limit int, step func(i int) (map[string][]byte,
 			<-w.stopCh
 			runtime.Goexit()
 		}
+		defer func() {
+			w.mu.Lock()
+			w.ends = append(w.ends, time.Now())
+			w.mu.Unlock()
+		}()
 		return step(i)
 	}
 	go func() {
@@ -293,7 +299,7 @@ func runWatch(raw json.RawMessage) (interface{}, error) {
 func observeWatch(w *watcher, limit int) (interface{}, error) {
 	gid := <-w.gid
 	out := watchOut{}
-	deadline := time.Now().Add(20 * time.Second)
+	deadline := time.Now().Add(60 * time.Second)
 	for {
 		// no draining here: during the run only the loader (on the watcher's goroutine) takes publications, so
 		// their order and their pairing with the invocations is exact; the loop drains once at the end
@@ -321,18 +327,20 @@ func observeWatch(w *watcher, limit int) (interface{}, error) {
 		}
 		if time.Now().After(deadline) {
 			w.finish()
-			return nil, fmt.Errorf("watcher neither slept nor returned nor spun within 20s")
+			return nil, fmt.Errorf("watcher neither slept nor returned nor spun within 60s")
 		}
 		time.Sleep(100 * time.Microsecond)
 	}
 	w.mu.Lock()
 	// "up to the first sleep": if this polling loop was starved long enough for the watcher to wake up again,
-	// cut the observation at the first pause of >= 900 ms between two invocations (a sleep lasts >= 1 s, every
-	// other step takes microseconds). pubsAt[j] is what was published after invocation j-1.
+	// cut the observation at the first pause of >= 900 ms between the return of one invocation and the start of
+	// the next (a sleep lasts >= 1 s; what watch does itself between two loads - compare, loadCertificates, send -
+	// takes about a millisecond; the duration of the load is not counted: a real loader of c11.source makes HTTP
+	// requests, which can take long on a loaded machine). pubsAt[j] is what was published after invocation j-1.
 	n := len(w.times)
 	cut := n
-	for j := 1; j < n; j++ {
-		if w.times[j].Sub(w.times[j-1]) >= 900*time.Millisecond {
+	for j := 1; j < n && j-1 < len(w.ends); j++ {
+		if w.times[j].Sub(w.ends[j-1]) >= 900*time.Millisecond {
 			cut = j
 			break
 		}
